@@ -164,7 +164,7 @@ func c03One(c *run.C, cd *codec.Codec, input []byte, how string, eps []int, r *g
 			default:
 				sizes = nil // as much as fits
 			}
-			buf = gen.Pick(r, []int{1, 2, 3, 7, 16, 64, 4096})
+			buf = gen.Pick(r, []int{0, 1, 2, 3, 7, 16, 64, 4096})
 		}
 		if ep == epWrite && !hook.Enabled && cd.Name != "cborl" {
 			continue
